@@ -35,6 +35,7 @@ pub fn all() -> Vec<&'static dyn Scenario> {
         &robust::CtrWrap,
         &robust::Misuse,
         &robust::LenWrap,
+        &robust::ValidEdge,
     ]
 }
 
